@@ -100,7 +100,7 @@ def _as_int(v):
     return int(v)
 
 
-def h_stack(env, size=(4, 5), n=2, input_order="zyx", twice=False):
+def h_stack(env, size=(4, 5), n=2, input_order="zyx", twice=False, dtype="float64"):
     """dose_filter: frequency array, dose pairing, output assembly (calls to dose_filter_single_image are recorded)"""
     ts = env.module("tiltstack")
     Hc, Wc = int(size[0]), int(size[1])
@@ -109,10 +109,12 @@ def h_stack(env, size=(4, 5), n=2, input_order="zyx", twice=False):
     shape = (n, Hc, Wc) if input_order == "zyx" else (Wc, Hc, n)
     if env.mode == "sym":
         from sx import larray
-        stack = larray.uf_array("img", shape)
+        stack = larray.uf_array("img", shape, tag=dtype)
         dl = objcol(doses)
     else:
         stack = np.random.default_rng(9).standard_normal(shape)
+        if dtype != "float64":
+            stack = (stack * 1000).astype(dtype)          # raw counts (MRC mode 1)
         dl = np.array(doses)
     if twice:
         # an earlier call in the same process on a stack of the SAME image size but another pixel size must leave nothing behind
@@ -143,7 +145,8 @@ def h_stack(env, size=(4, 5), n=2, input_order="zyx", twice=False):
     for z, (image, dose, F, r) in enumerate(calls):
         env.check("image_%d_is_tilt_%d" % (z, z), env.eq(at(image, (y, x)), pix(stack, z, y, x)))
         env.check("dose_%d_paired_with_tilt_%d" % (z, z), env.eq(dose, doses[z]))
-        env.check("output_%d_is_filtered_tilt_%d" % (z, z), env.eq(pix(out, z, y, x), at(r, (y, x))))
+        if dtype == "float64":
+            env.check("output_%d_is_filtered_tilt_%d" % (z, z), env.eq(pix(out, z, y, x), at(r, (y, x))))
     F = calls[0][2]
     for yy in range(Hc):
         for xx in range(Wc):
@@ -156,8 +159,11 @@ def h_stack(env, size=(4, 5), n=2, input_order="zyx", twice=False):
         from sx import numstubs
         cy, cx = Hc // 2, Wc // 2       # centred position of the DC term; FFT index (0,0)
         env.check("dc_attenuation_is_one", env.eq(g.at((0, 0)), 1.0))
-    else:
+    elif dtype == "float64":
         env.check("mean_unchanged", env.eq(float(np.mean(pix_plane(out, 0, input_order))), float(np.mean(pix_plane(stack, 0, input_order)))))
+    else:
+        # integer stacks: the result is rounded towards zero when it is stored back, so the mean moves by less than one count
+        env.check("mean_unchanged_within_one_count", abs(float(np.mean(pix_plane(out, 0, input_order))) - float(np.mean(pix_plane(stack, 0, input_order)))) < 1.0)
 
 
 def pix_plane(arr, z, order):
@@ -198,4 +204,5 @@ def jobs(tier, seed):
     for k, sz in enumerate(sizes):
         j.append(("h_stack", {"size": sz, "n": 2 + (k % 2), "input_order": ["zyx", "xyz"][k % 2]}))
     j.append(("h_stack", {"size": [5, 4], "n": 2, "input_order": "zyx", "twice": True}))
+    j.append(("h_stack", {"size": [4, 5], "n": 2, "input_order": "zyx", "dtype": "int16"}))     # integer stacks: the frequency array must not inherit the stack's dtype
     return j
